@@ -42,7 +42,7 @@ ASSUMPTIONS = [
 ]
 REPORT_COUNTERS = ["cases", "crash_points_enumerated", "faults_raised", "scn_first_call", "scn_rebuild", "scn_cache_miss",
                    "scn_next_chain", "scn_invalid_method", "scn_hook_raises", "scn_recursion", "probe_vectors_compared",
-                   "invalid_method_positions", "invalid_method_via_linkback_parent", "invalid_method_swapped_for_valid", "recursion_faults", "hook_faults", "post_fault_behaviours"]
+                   "invalid_method_positions", "invalid_method_via_linkback_parent", "invalid_method_swapped_for_valid", "invalid_method_after_first_build", "recursion_faults", "hook_faults", "post_fault_behaviours"]
 
 SCENARIOS = ["first_call", "rebuild", "cache_miss", "next_chain", "invalid_method", "hook_raises", "recursion"]
 
@@ -277,7 +277,19 @@ def _invalid(spec, env, res, ref, behaviours):
                     continue
                 prog.ov.register(prog.make(m), priority=m.get("prio", 0))
             if p == len(methods):
-                prog.ov.register(bad)
+                # last position: the function is *built and used* before the offender arrives, so that registering it
+                # means a failing re-build (the registration itself then raises, the method stays registered)
+                try:
+                    prog.bind()
+                    _probe(prog, spec["probes"][:2])
+                    res.count("invalid_method_after_first_build")
+                except Exception:  # noqa: BLE001
+                    pass
+                try:
+                    prog.ov.register(bad)
+                except Exception:  # noqa: BLE001
+                    if bad not in prog.ov.defns.values():
+                        raise
         except Exception as e:  # noqa: BLE001
             res.count("invalid_rejected_at_registration")
             continue
@@ -336,6 +348,22 @@ def _invalid(spec, env, res, ref, behaviours):
             res.violation("not-repaired-by-unregister", [spec["badkind"]], spec,
                           observed={"position": p, "probes": _diff(got, ref, spec["probes"])},
                           acceptable="after unregister(bad) the function behaves like the complete valid set")
+            prog.close()
+            return
+        # and it goes on taking changes: one more (valid) method is registered and must show
+        try:
+            parent.register(prog.make(spec["late"]), priority=spec["late"].get("prio", 0))
+            prog.bind()
+            ref_late = _reference(spec, env, extra=[spec["late"]])
+        except Exception:  # noqa: BLE001
+            prog.close()
+            continue
+        got2 = _probe(prog, spec["probes"])
+        res.count("probe_vectors_compared")
+        if got2 != ref_late:
+            res.violation("change-after-repair-not-taken", [spec["badkind"]], spec,
+                          observed={"position": p, "probes": _diff(got2, ref_late, spec["probes"])},
+                          acceptable="a method registered after the repair is part of the function")
             prog.close()
             return
         prog.close()
